@@ -18,6 +18,8 @@ import (
 	"verifharness/fakecmd"
 )
 
+var planStuck int
+
 var planNames = []string{"p0", "p1", "p2", "p3", "p4", "p5", "p6", "p7"}
 
 type planCase struct {
@@ -83,7 +85,7 @@ func runPlan(rec *recWriter, dir string, id string, pc planCase, repeat int) {
 	for rep := 0; rep < repeat; rep++ {
 		m := map[string]any{"kind": "plan", "id": fmt.Sprintf("%s-r%d", id, rep), "nodes": nodes, "edges": edges,
 			"disabled": dis, "foreground": fg, "replicas": reps, "requested": req, "noDeps": pc.noDeps,
-			"loadErr": false, "runnerErr": false, "order": []string{}, "disabledAfter": []string{}, "launched": []string{}, "base": [][]string{}}
+			"loadErr": false, "runnerErr": false, "runStuck": false, "runSkipped": false, "order": []string{}, "disabledAfter": []string{}, "launched": []string{}, "base": [][]string{}}
 		project, err := loader.Load(&loader.LoaderOptions{FileNames: []string{path}, IsInternalLoader: true})
 		if err != nil {
 			m["loadErr"] = true
@@ -112,6 +114,12 @@ func runPlan(rec *recWriter, dir string, id string, pc planCase, repeat int) {
 			order = []string{}
 		}
 		m["order"] = order
+		if planStuck >= 5 {
+			// Run() kept hanging on earlier records: do not spend the budget on more of the same
+			m["runSkipped"] = true
+			rec.put(m)
+			continue
+		}
 		// run: every launched command exits 0 at once
 		var mu sync.Mutex
 		launched := map[string]bool{}
@@ -130,10 +138,15 @@ func runPlan(rec *recWriter, dir string, id string, pc planCase, repeat int) {
 		go func() { _ = runner.Run(); close(done) }()
 		select {
 		case <-done:
-		case <-time.After(3 * time.Second):
+		case <-time.After(2 * time.Second):
+			// Run() does not return (e.g. an accepted cycle): record it and move on, whatever a shutdown does
 			m["runStuck"] = true
-			_ = runner.ShutDownProject()
-			<-done
+			planStuck++
+			go func() { _ = runner.ShutDownProject() }()
+			select {
+			case <-done:
+			case <-time.After(2 * time.Second):
+			}
 		}
 		ls := []string{}
 		mu.Lock()
